@@ -33,10 +33,13 @@ BUDGET = {'quick': 40, 'thorough': 400}
 QUOTA = {'quick': 40, 'thorough': 1300}
 REQUIRED = {'quick': {'evaluations': 8000, 'explicit_index_queries': 5000, 'multi_section_name_queries': 1000,
                       'malformed_rejected': 300, 'info_only_compared': 400, 'noise_data_info_only': 400,
-                      'declared_length_streams': 100, 'cells_edition_sec2': 6, 'category11_messages_in_info_only_streams': 50},
+                      'declared_length_streams': 100, 'cells_edition_sec2': 6,
+                      'category11_messages_in_info_only_streams': 50},
             'thorough': {'evaluations': 200000, 'explicit_index_queries': 150000, 'multi_section_name_queries': 30000,
-                         'malformed_rejected': 8000, 'info_only_compared': 15000, 'noise_data_info_only': 15000,
-                         'declared_length_streams': 3000, 'cells_edition_sec2': 6, 'category11_messages_in_info_only_streams': 1500}}
+                      'malformed_rejected': 8000, 'info_only_compared': 15000, 'noise_data_info_only': 15000,
+                      'declared_length_streams': 3000, 'cells_edition_sec2': 6,
+                      'category11_messages_in_info_only_streams': 1500}}
+
 
 MALFORMED = ['length', ' length', 'x%length', '%a.length', '%1x.length', '%.length', '%-.length', '%x1.edition',
              '0.length', '$length', '%one.n_subsets', '% .length', '%1,0.length']
